@@ -206,6 +206,7 @@ class AlgoInterp(Interp):
         self.ops = {}              # intercepted operation counts
         self.fresh = 0
         self._arity = {}
+        self.recoded = []          # scalar tokens handed to a recoder
         self.masks = []            # Boolean mask variables introduced by contracts
         self.lemmas = []           # (label, status, seconds) of solver-proved rewrite lemmas
         self._lemma_cache = {}
@@ -382,13 +383,40 @@ class AlgoInterp(Interp):
         r = self.intercept(fr, cal, args)
         if r is not NotImplemented:
             return r
+        m = cal.method
+        if args and isinstance(args[0], SymV):
+            a = args[0]
+            if m == "wrapping_neg" and len(args) == 1:
+                return SymV(-a.e, a.bits, a.signed)
+            if m in ("wrapping_sub", "wrapping_add") and len(args) == 2:
+                y = bv(args[1], a.bits)
+                return SymV(a.e - y if m == "wrapping_sub" else a.e + y, a.bits, a.signed)
+        if len(args) == 2 and isinstance(args[1], SymV) and isinstance(args[0], IntV) and \
+                m in ("wrapping_sub", "wrapping_add"):
+            x = bv(args[0])
+            y = bv(args[1], args[0].bits)
+            return SymV(x - y if m == "wrapping_sub" else x + y, args[0].bits, args[0].signed)
+        if cal.trait == "Index" and m == "index" and len(args) == 2 and isinstance(args[0], Ref):
+            return args[0]          # full-range slicing `&a[..]`
         return Interp.builtin(self, fr, cal, args)
+
+    def const_value_simple(self, text):
+        return None
 
     # ------------------------------------------------------------------
     def intercept(self, fr, cal, args):
         cfg = self.cfg
         m = cal.method
         owner = cal.self_short
+        toks = [a.get() if isinstance(a, Ref) else a for a in args]
+        if toks and isinstance(toks[0], ScalarTok) and m not in cfg.recoders and m not in cfg.splits:
+            # arithmetic in the scalar field on an opaque scalar (C01): only `mul2` is modelled
+            if m == "mul2" and len(args) == 1:
+                self.count("scalar.mul2")
+                t = ScalarTok(toks[0].name + "_x2")
+                t.rel = ("mul2", toks[0])
+                return t
+            raise NotAbstractable("scalar operation %s on an opaque scalar" % m)
         if cal.trait is not None:
             return NotImplemented
         is_point = owner == cfg.point and (cal.self_mod in ("", cfg.module))
@@ -448,6 +476,9 @@ class AlgoInterp(Interp):
             self.count(m)
             a, b = L(args[0]), L(args[1])
             return Agg("tuple", [self.wrap(a + b), self.wrap(a - b)])
+        if m == "add_affine_affine" and len(args) == 2 and is_point:
+            self.count(m)
+            return self.wrap(L(args[0], "affine operand") + L(args[1], "affine operand"))
         if m in ("from_duif", "from_affine", "from_affine_extended") and len(args) == 1 and is_point:
             self.count(m)
             return self.wrap(L(args[0], "affine operand"))
@@ -560,6 +591,7 @@ class AlgoInterp(Interp):
             self.assumptions.append(val == src.iv)
         elif isinstance(src, ScalarTok):
             self.assumptions.append(val == src.value)
+            self.recoded.append(src)
         else:
             raise NotAbstractable("recoder argument %r" % (src,))
         self.digits[label] = (ds, w)
@@ -642,6 +674,8 @@ class AlgoInterp(Interp):
             if aid in self.mir.allocs:
                 return Ref(Cell(self.table(self.mir.allocs[aid][0], m.group(2))))
             raise NotAbstractable("unknown allocation " + text)
+        if text == "RangeFull":
+            return UNIT
         if text.endswith("::NEUTRAL"):
             base = strip_generics(text).split("::")
             owner = base[-2] if len(base) >= 2 else ""
@@ -716,11 +750,12 @@ def _mul_int(K, c):
 
 class ScalarTok:
     """an opaque scalar argument with integer value `value` (z3 Int)"""
-    __slots__ = ("name", "value")
+    __slots__ = ("name", "value", "rel")
 
     def __init__(self, name):
         self.name = name
         self.value = z3.Int(name)
+        self.rel = None
 
 
 def decide(assumptions, goal, timeout_ms=60000):
